@@ -85,38 +85,98 @@ def _repl_parts(e):
                         ast.unparse(e)[:60])
 
 
+_CANON_ESC = {9: b'\\t', 10: b'\\n', 13: b'\\r'}
+
+
+def _canon_pattern(pat):
+    """a regex that is a plain literal is re-spelled in one canonical way
+    (\\t \\n \\r for control characters, re.escape for the rest) so that
+    re.sub(br'\\t', ..) and s.replace(b'\\t', ..) compare equal"""
+    import re as _re
+    from . import rx
+    try:
+        tree = list(rx.parse(pat))
+    except Exception:
+        return pat
+    if not tree or any(str(op) != 'LITERAL' for (op, _av) in tree):
+        return pat
+    out = b''
+    for (_op, av) in tree:
+        out += _CANON_ESC.get(av) or (
+            bytes([av]) if bytes([av]).isalnum() or av == 0x20
+            else _re.escape(bytes([av])))
+    return out
+
+
 def extract_pipeline(ctx, qual=LUA + ':LuaFormatterWriter._get_code_for_spaces'):
+    """the substitution steps applied to the whitespace run, in order:
+       V = re.sub(P, R, V) | V = <compiled P>.sub(R, V) | V = V.replace(A, B)
+    (a literal replace is the substitution of the escaped literal)"""
+    import re as _re
+    from . import norm
+    from .consteval import Regex
     model, ev = ctx.model, ctx.consts
     f = model.func(qual)
     subs = []
     var = None
     for st in walk_own(f.node):
-        if isinstance(st, ast.Assign) and isinstance(st.value, ast.Call) and \
-                model.ext_name(f.module, st.value.func) == 're.sub':
-            c = st.value
+        if not (isinstance(st, ast.Assign) and isinstance(st.value, ast.Call)
+                and isinstance(st.value.func, ast.Attribute)):
+            continue
+        c = st.value
+        pat = repl_e = src = None
+        if model.ext_name(f.module, c.func) == 're.sub':
             if len(c.args) < 3:
                 raise AnalysisError('re.sub with keyword arguments')
-            pat = ev.eval_expr(f.module, c.args[0])
-            if not isinstance(pat, bytes):
-                raise AnalysisError('re.sub pattern is not a bytes constant')
-            tgt = st.targets[0]
-            src = c.args[2]
-            if not (isinstance(tgt, ast.Name) and isinstance(src, ast.Name)
-                    and tgt.id == src.id):
-                raise AnalysisError('re.sub does not rewrite one variable '
-                                    'in place')
-            if var is None:
-                var = tgt.id
-            elif var != tgt.id:
-                raise AnalysisError('pipeline uses several variables')
-            guard = ''
-            p = getattr(st, '_parent', None)
-            if isinstance(p, ast.If):
-                guard = ast.unparse(p.test)
-                if st in p.orelse:
-                    guard = 'not (' + guard + ')'
-            flags = 0
-            subs.append(Sub(st, pat, _repl_parts(c.args[1]), guard, flags))
+            pat = norm.fold(ctx, f, c.args[0])
+            if isinstance(pat, Regex):
+                pat = pat.pattern
+            repl_e, src = c.args[1], c.args[2]
+        elif c.func.attr == 'sub' and len(c.args) == 2:
+            rv = norm.fold(ctx, f, c.func.value)
+            if not isinstance(rv, Regex):
+                continue
+            pat = rv.pattern
+            repl_e, src = c.args[0], c.args[1]
+        elif c.func.attr == 'replace' and len(c.args) == 2 and \
+                isinstance(c.func.value, ast.Name):
+            a = norm.fold(ctx, f, c.args[0])
+            if not isinstance(a, bytes):
+                continue
+            pat = _re.escape(a)
+            repl_e, src = c.args[1], c.func.value
+        else:
+            continue
+        if not isinstance(pat, bytes):
+            raise AnalysisError('re.sub pattern is not a bytes constant')
+        tgt = st.targets[0]
+        if not (isinstance(tgt, ast.Name) and isinstance(src, ast.Name)
+                and tgt.id == src.id):
+            raise AnalysisError('re.sub does not rewrite one variable '
+                                'in place')
+        if var is None:
+            var = tgt.id
+        elif var != tgt.id:
+            raise AnalysisError('pipeline uses several variables')
+        guard = ''
+        p = getattr(st, '_parent', None)
+        if isinstance(p, ast.If):
+            guard = ast.unparse(norm.subst_locals(f.node, p.test))
+            if st in p.orelse:
+                guard = 'not (' + guard + ')'
+        flags = 0
+        repl_e = norm.subst_locals(f.node, repl_e)
+        if c.func.attr == 'replace':
+            b_ = norm.fold(ctx, f, repl_e)
+            if not isinstance(b_, bytes):
+                raise AnalysisError('replace() with a non-constant')
+            parts = [('lit', b_)] if b_ else []
+        else:
+            parts = _repl_parts(repl_e)
+        pat = _canon_pattern(pat)
+        s_ = Sub(st, pat, parts, guard, flags)
+        s_.repl_expr = repl_e
+        subs.append(s_)
     subs.sort(key=lambda s: (s.node.lineno, s.node.col_offset))
     rets = [n for n in walk_own(f.node) if isinstance(n, ast.Return)]
     returns_var = all(isinstance(r.value, ast.Name) and r.value.id == var
@@ -152,9 +212,12 @@ class HandlerPaths:
             raise PathLimit('too many paths in ' + func.qual)
 
     # --- expression classification
-    def _yield_event(self, v):
+    def _yield_event(self, v, env=None):
+        env = env or {}
         if v is None:
             return ('ws',)
+        if isinstance(v, ast.Name) and isinstance(env.get(v.id), bytes):
+            return ('emit', env[v.id])
         if isinstance(const_str(v), bytes):
             return ('emit', const_str(v))
         if isinstance(v, ast.Call) and isinstance(v.func, ast.Attribute) and \
@@ -163,6 +226,9 @@ class HandlerPaths:
             if a == '_get_text':
                 arg = v.args[1] if len(v.args) > 1 else None
                 c = const_str(arg) if arg is not None else None
+                if isinstance(arg, ast.Name) and \
+                        isinstance(env.get(arg.id), bytes):
+                    c = env[arg.id]
                 return ('emit', c if isinstance(c, bytes) else None)
             if a == '_get_semis':
                 return ('emit', b';')
@@ -172,7 +238,7 @@ class HandlerPaths:
                 return ('content', 'name')
         if isinstance(v, ast.BinOp) and isinstance(v.op, ast.Add):
             # spaces + self._get_text(...)
-            r = self._yield_event(v.right)
+            r = self._yield_event(v.right, env)
             if r[0] == 'emit':
                 return r
         if isinstance(v, ast.Attribute) and v.attr == 'code':
@@ -233,7 +299,32 @@ class HandlerPaths:
         if isinstance(st, ast.Expr):
             v = st.value
             if isinstance(v, ast.Yield):
-                return [(ev + [self._yield_event(v.value)], env, False)]
+                ife = [x for x in ast.walk(v.value)
+                       if isinstance(x, ast.IfExp)] if v.value is not None \
+                    else []
+                if ife:
+                    # a conditional inside the yielded expression (b'if' if
+                    # first else b'elseif'): one path per alternative
+                    from .astutil import clone
+                    x = ife[0]
+                    out = []
+                    for val, sub in ((True, x.body), (False, x.orelse)):
+                        t = self._truth(x.test, env)
+                        if t is not None and t != val:
+                            continue
+                        en = self._assume(x.test, env, val)
+
+                        class T(ast.NodeTransformer):
+                            def visit_IfExp(self, n):
+                                if ast.dump(n) == ast.dump(x):
+                                    return clone(sub)
+                                return self.generic_visit(n)
+                        nv = T().visit(clone(v.value))
+                        st2 = ast.Expr(value=ast.Yield(value=nv))
+                        out.extend(self._stmt(st2, ev, en))
+                    return out
+                return [(ev + [self._yield_event(v.value, env)], env,
+                         False)]
             if isinstance(v, ast.YieldFrom):
                 w = self._walk_target(v.value)
                 return [(ev + [w or ('content', 'child')], env, False)]
@@ -254,6 +345,21 @@ class HandlerPaths:
                 if t.attr == '_pos':
                     return [(ev + [('pos',)], env, False)]
             return [(ev, env, False)]
+        if isinstance(st, ast.Assign) and len(st.targets) == 1 and \
+                isinstance(st.targets[0], ast.Name) and \
+                isinstance(st.value, ast.IfExp) and \
+                isinstance(const_str(st.value.body), bytes) and \
+                isinstance(const_str(st.value.orelse), bytes):
+            # opener = b'do' if <test> else b'then'
+            out = []
+            for val, sub in ((True, st.value.body), (False, st.value.orelse)):
+                t = self._truth(st.value.test, env)
+                if t is not None and t != val:
+                    continue
+                en = self._assume(st.value.test, env, val)
+                en[st.targets[0].id] = const_str(sub)
+                out.append((ev, en, False))
+            return out
         if isinstance(st, ast.Assign):
             en = dict(env)
             for t in st.targets:
@@ -261,6 +367,8 @@ class HandlerPaths:
                     if isinstance(st.value, ast.Constant) and \
                             isinstance(st.value.value, bool):
                         en[t.id] = st.value.value
+                    elif isinstance(const_str(st.value), bytes):
+                        en[t.id] = const_str(st.value)
                     else:
                         en.pop(t.id, None)
                 elif isinstance(t, ast.Attribute) and t.attr == '_indent':
@@ -271,8 +379,17 @@ class HandlerPaths:
             t = self._truth(st.test, env)
             out = []
             if t is not False:
-                out += self._block(st.body, self._assume(st.test, env, True),
-                                   ev)
+                en_t = self._assume(st.test, env, True)
+                if isinstance(st.test, ast.Compare) and \
+                        isinstance(st.test.ops[0], ast.Is) and \
+                        isinstance(st.test.left, ast.Name) and \
+                        isinstance(st.test.comparators[0], ast.Constant) and \
+                        st.test.comparators[0].value is None and \
+                        st.test.left.id in env.get('__loopvars__', ()):
+                    # the pair without a condition is the LAST pair
+                    en_t = dict(en_t)
+                    en_t['__last_iteration__'] = True
+                out += self._block(st.body, en_t, ev)
             if t is not True:
                 en = self._assume(st.test, env, False)
                 # `if <loop var> is not None: ... else: <else part>`: the pair
@@ -303,7 +420,10 @@ class HandlerPaths:
                 for (e1, en1, term) in cur:
                     if term or en1.get('__last_iteration__'):
                         continue
-                    nxt += self._block(st.body, en1, e1)
+                    for (e2, en2, t2) in self._block(st.body, en1, e1):
+                        # `continue` ends the iteration, not the handler
+                        nxt.append((e2, en2, False if t2 == 'continue'
+                                    else t2))
                 out += nxt
                 cur = nxt
             res = []
@@ -317,6 +437,8 @@ class HandlerPaths:
             raise AnalysisError('while loop in handler ' + self.f.qual)
         if isinstance(st, ast.Return):
             return [(ev, env, True)]
+        if isinstance(st, ast.Continue):
+            return [(ev, env, 'continue')]
         if isinstance(st, (ast.Assert, ast.Pass)):
             return [(ev, env, False)]
         if isinstance(st, ast.Raise):
